@@ -3,6 +3,7 @@ import TexelVerif.Drv.Chess
 import TexelVerif.Drv.Uci
 import TexelVerif.Drv.Mate
 import TexelVerif.Drv.NN
+import TexelVerif.Drv.PG
 /-! Line-protocol driver: one operation per stdin line, one canonical reply line.
     Imports model files only (no proofs, no Mathlib), so it links as a `lean_exe`. -/
 
@@ -17,6 +18,7 @@ def dispatch (st : DrvState) (line : String) : DrvState × String :=
   | "chess" :: args => (st, Drv.Chess.step args)
   | "uci" :: args => (st, Drv.Uci.step args)
   | "mate" :: args => (st, Drv.Mate.step args)
+  | "pg" :: args => (st, Drv.PG.step args)
   | "nn" :: args => let (t, o) := Drv.NN.step st.nn args; ({ st with nn := t }, o)
   | _ => (st, "bad-op")
 
